@@ -43,6 +43,8 @@ class Gen:
     def text(self):
         i = self.tidx
         self.tidx += 1
+        if self.skel.get("empty"):
+            return ""
         if self.rich is not None and i == self.rich:
             n = self.skel.get("rich_len", 2)
             return self.ctx.str(self._name("t"), n, 0, self.skel.get("rich_hi", 0x10FFFF))
@@ -52,6 +54,8 @@ class Gen:
     def octets(self):
         i = self.bidx
         self.bidx += 1
+        if self.skel.get("empty"):
+            return b""
         if self.big is not None and i == self.big[0]:
             L = self.big[1]
             a = self.ctx.bytes(self._name("o"), min(L, 1))
@@ -297,6 +301,23 @@ def skeletons(tier):
             kw = dict(base)
             kw.update(rich=r, rich_len=2 if tier == "quick" else 3, rich_hi=0x10FFFF)
             add(f"rich{r}_{nm}", **kw)
+    # present-but-empty values: "" / b"" / [] are values, not absences
+    empties = [
+        ("bind_request_sasl", dict(kind="bind_request", auth="sasl")),
+        ("bind_request_simple", dict(kind="bind_request", auth="simple")),
+        ("bind_response", dict(kind="bind_response", nref=0, creds=True)),
+        ("search_request_eq", dict(kind="search_request", filter=["and", [["eq"], ["substrings", True, 1, True], ["ext", True, True, False]]], nattr=1)),
+        ("search_entry", dict(kind="search_entry", attrs=[1, 0])),
+        ("search_done", dict(kind="search_done", nref=1)),
+        ("search_reference", dict(kind="search_reference", nuri=1)),
+        ("extended_request", dict(kind="extended_request", value=True)),
+        ("extended_response", dict(kind="extended_response", name=True, value=True, nref=0)),
+        ("ctl", dict(kind="unbind", controls=["generic_val", "paged"])),
+    ]
+    for nm, base in empties:
+        kw = dict(base)
+        kw["empty"] = True
+        add(f"empty_{nm}", **kw)
     # each int field in turn over the full signed range (ids, version, limits, page size, result code)
     wide_targets = [
         ("bind_request", dict(kind="bind_request", auth="simple"), 2),
